@@ -110,7 +110,7 @@ func runC05(c C05Case, o *Obs) error {
 	if err := obs.Create(ospec); err != nil {
 		return err
 	}
-	view := MSet{}     // the writer's state (incl. uncommitted)
+	view := MSet{}      // the writer's state (incl. uncommitted)
 	committed := MSet{} // what has been committed
 	wt := int64(0)      // explicit write times: increasing
 	implicitN := 0
@@ -288,7 +288,7 @@ func runC05(c C05Case, o *Obs) error {
 					effective++
 				}
 				if st.NullKey && j == 0 {
-					e := conn.Exec("insert into "+tn+"(k,a) values (NULL, 1)")
+					e := conn.Exec("insert into " + tn + "(k,a) values (NULL, 1)")
 					if errClass(e) != "constraint-notnull" {
 						return fmt.Errorf("%s: INSERT of a NULL key inside the transaction: %v", where, e)
 					}
